@@ -167,7 +167,7 @@ CHECKS = {
     "C06": {
         "module": "Vanguard.Props.C06",
         "namespace": "Vanguard.C06",
-        "streams": ["route", "escape"],
+        "streams": ["route", "escape", "rest"],
         "partial": "",
         "assumptions": [
             "route_match_spec takes CapturesInRange (variable ranges lie inside their template) as a hypothesis; it is proved of every table "
